@@ -91,6 +91,27 @@ func execM(cd *common.Codec, sc *Scenario, data []byte, x *simkit.Ctx, allocByte
 			r.err = cd.ParseString(str, t)
 		case "write":
 			_, r.err = simkit.Feed(cd.NewParser(t), buf, sc.Cuts, true, &x.Clock)
+		case "write-then-parse":
+			// the head through Write, the rest - and with it the end of the
+			// input - through Parse / ParseString on the SAME parser (cborl and
+			// ubjson keep their state between calls; this is how a Write-driven
+			// parse is told that the input has ended)
+			p := cd.NewParser(t)
+			cut := len(buf) / 2
+			if len(sc.Cuts) > 0 && sc.Cuts[0] <= len(buf) {
+				cut = sc.Cuts[0]
+			}
+			if _, r.err = simkit.Feed(p, buf[:cut], nil, false, &x.Clock); r.err == nil {
+				pm := p.(interface {
+					Parse([]byte) error
+					ParseString(string) error
+				})
+				if len(sc.Cuts)%2 == 0 {
+					r.err = pm.Parse(buf[cut:])
+				} else {
+					r.err = pm.ParseString(string(buf[cut:]))
+				}
+			}
 		case "reader":
 			rd := &simkit.Reader{Data: buf, Sizes: sc.Reads, EOFWithData: sc.EOFWithData, Clock: &x.Clock}
 			_, r.err = cd.ParseReader(simkit.AsReader(sc.ReaderKind, rd), t)
@@ -208,6 +229,10 @@ func (Engine) Run(c *simkit.Choices, x *simkit.Ctx) *simkit.Violation {
 		for k, n := 0, 2+c.N(2); k < n; k++ {
 			sc := &Scenario{Format: string(f), Base: hex.EncodeToString(doc.Bytes), Faults: faults, Doc: hex.EncodeToString(data)}
 			sc.Entry = entries[c.N(len(entries))]
+			if f != model.JSON && c.N(7) == 0 {
+				sc.Entry = "write-then-parse"
+				sc.Cuts = drawCuts(c, len(data))
+			}
 			switch sc.Entry {
 			case "write":
 				sc.Cuts = drawCuts(c, len(data))
@@ -542,10 +567,20 @@ func truncation(c *simkit.Choices, x *simkit.Ctx, cd *common.Codec, f model.Form
 	}
 	for _, at := range cands {
 		data := doc.Bytes[:at]
-		for _, entry := range []string{"parse", "parsestring", "reader", "decoder-bytes", "decoder-reader"} {
+		tentries := []string{"parse", "parsestring", "reader", "decoder-bytes", "decoder-reader"}
+		if f != model.JSON {
+			tentries = append(tentries, "write-then-parse")
+		}
+		for _, entry := range tentries {
 			sc := &Scenario{Format: string(f), Base: hex.EncodeToString(doc.Bytes), Doc: hex.EncodeToString(data), Entry: entry,
 				Faults:      []common.Fault{{Kind: "truncate", Pos: at}},
 				TruncatedIn: fmt.Sprintf("value %d spanning [%d,%d)", inside[at], doc.Values[inside[at]][0], doc.Values[inside[at]][1])}
+			if entry == "write-then-parse" {
+				sc.Cuts = []int{c.N(len(data) + 1)}
+				if c.Bool() {
+					sc.Cuts = append(sc.Cuts, len(data)) // (parity selects ParseString)
+				}
+			}
 			if entry == "reader" || entry == "decoder-reader" {
 				sc.Reads = drawReads(c, len(data))
 				sc.EOFWithData = c.Bool()
